@@ -2,6 +2,7 @@ import SSVerif.Proofs.AlignLevel
 import SSVerif.Proofs.AlignStepWF
 import SSVerif.Proofs.AlignRun
 import SSVerif.Proofs.AlignOpt
+import SSVerif.Proofs.AlignWordSplit
 import SSVerif.Generated.SearchConsts
 /-!
 # C04 — Forced alignment is a consistent words > phones > states hierarchy
@@ -324,11 +325,11 @@ the last state after frame `T-1`; its score is the sum of `-senone score` of the
 cost` of the moves (`Step.PathTo`, `Step.FullPath`) — and, when alive, it **is** the score of such a path.
 Together with `C04_scores_add_up` (`Σ word scores = final out-score`, each state score a difference of cumulative
 path scores) the aligned scores are those of a best window-constrained path over the same senone scores.
-**Not proved** (the rest of the clause): that each single word's share is the best score over that word's frames
-(an exchange argument on top of this theorem: the windows pin the word boundaries, so the total is a sum of
-independent per-word maxima) and the identification with the first-pass acoustic score, which needs the first pass
-to be optimal inside the word boundaries with the same cross-word triphones (C02's network model; false for the two
-known-finding classes).  That equality is evaluated on the implementation under `compallsen=yes`. -/
+The per-word statement — each single word's score is the best score of a path segment over that word's frames — is
+`C04_word_score_is_best_segment`.  **Not proved** (hence `_partial`): the identification with the first-pass acoustic
+score, which needs the first pass to be optimal inside the word boundaries with the same cross-word triphones (C02's
+network model; false for the two known-finding classes).  That equality is evaluated on the implementation under
+`compallsen=yes`. -/
 theorem C04_word_score_is_acoustic_part_partial (tps : Array (Array Int)) (sf ef : Array Int) (frames : List (Array Int))
     (hok : ∀ sen ∈ frames, Step.FrameOK tps sen) (hsf : sf.getD 0 0 ≤ 0)
     (hmono : ∀ i, i + 1 < sf.size → ef.getD i 0 ≤ ef.getD (i + 1) 0)
@@ -339,6 +340,58 @@ theorem C04_word_score_is_acoustic_part_partial (tps : Array (Array Int)) (sf ef
     ((Step.run tps sf ef frames).2.1.score > Step.worst →
       Step.FullPath tps sf ef (fun g => frames.getD g #[]) sf.size frames.length (Step.run tps sf ef frames).2.1.score) :=
   Step.run_optimal tps sf ef frames hok hsf hmono hT hend
+
+/-- **C04, each aligned word score is the best score over that word's frames.**  Model runs as in
+`C04_model_run_hierarchy` (three states per phone, first-pass words tiling `[0,T)`, skip-free matrices, in-range data,
+`T < 16 140`, final score alive).  For every word `i`, with `c_i = 3 · (number of phones before word i)` its first
+state and `A_i` its first-pass start frame: the score the second pass gives the word is an upper bound of the score
+of **every** path segment (`Step.SegTo`: same moves, windows and costs as `Step.PathTo`) that starts in state `c_i` at
+frame `A_i` and arrives in the first state of the next word at that word's start frame — for the last word: that
+leaves the last state after frame `T-1` (`Step.FullSeg`) — and it **is** the score of such a segment.
+(The windows pin the word boundaries: every admissible path enters word `i` exactly at `(A_i, c_i)`, so path scores
+split there; token scores are the best path scores, and state scores are their differences.) -/
+theorem C04_word_score_is_best_segment (D : Dict) (words : List Entry) (tps : Array (Array Int))
+    (frames : List (Array Int)) (h3 : D.nEmit = 3) (hP : ∀ w ∈ words, D.pron w.id ≠ [])
+    (hfp : Contig words 0 frames.length) (hok : ∀ sen ∈ frames, Step.FrameOK tps sen)
+    (hT : (frames.length : Int) * 33022 ≤ 533000000)
+    (halive : (Step.run tps ((populate D words).phones.map sfOf).toArray ((populate D words).phones.map efOf).toArray
+      frames).2.1.score > Step.worst) (i : Nat) (hi : i < words.length) :
+    let sf := ((populate D words).phones.map sfOf).toArray
+    let ef := ((populate D words).phones.map efOf).toArray
+    let r := Step.run tps sf ef frames
+    let sens := fun g => frames.getD g #[]
+    let n := (populate D words).phones.length
+    let lens := words.map (plen D)
+    ∃ a' w x, finish r.1 frames.length r.2.1 (populate D words) = some a' ∧ a'.words[i]? = some w ∧ words[i]? = some x ∧
+      (∀ y, words[i + 1]? = some y →
+        (∀ sc, Step.SegTo tps sf ef sens n (3 * pre lens i) x.start.toNat y.start.toNat (3 * pre lens (i + 1)) sc →
+          sc ≤ w.score) ∧
+        Step.SegTo tps sf ef sens n (3 * pre lens i) x.start.toNat y.start.toNat (3 * pre lens (i + 1)) w.score) ∧
+      (words[i + 1]? = none →
+        (∀ sc, Step.FullSeg tps sf ef sens n (3 * pre lens i) x.start.toNat frames.length sc → sc ≤ w.score) ∧
+        Step.FullSeg tps sf ef sens n (3 * pre lens i) x.start.toNat frames.length w.score) := by
+  intro sf ef r sens n lens
+  have hE : 0 < D.nEmit := by omega
+  have hwf := C04_model_run_wfTokens D words tps frames h3 hP hfp hok hT halive
+  obtain ⟨a1, f1, _, _, _, pa1, pa2, ks, kp, _, _, hsc⟩ := C04_backtrace_partition D words r.1 frames.length r.2.1 hE hP hwf
+  obtain ⟨a2, f2, _, i2⟩ := C04_boundaries_preserved D words r.1 frames.length r.2.1 hE hP hwf hfp
+  have e2 : a2 = a1 := by rw [f1] at f2; exact (Option.some.inj f2).symm
+  subst e2
+  obtain ⟨_, _, _, _, p5, p6, _, _, _, p10, _⟩ := C04_populate_structure D words
+  have hposW : ∀ n ∈ words.map (plen D), 0 < n := by
+    intro n hn
+    obtain ⟨w, hw, rfl⟩ := List.mem_map.1 hn
+    exact List.length_pos_iff.2 (hP w hw)
+  have hlp : a2.phones.length = lens.sum := (keys_length kp).trans p5
+  have hls : a2.states.length = 3 * a2.phones.length := by
+    rw [keys_length ks, p10, h3, sum_replicate3, keys_length kp]
+  have hbd : a2.words.map (·.start) = words.map (·.start) := by
+    have := congrArg (List.map (fun t : Int × Int => t.1)) i2
+    simpa [List.map_map, Function.comp_def] using this
+  rw [h3] at pa1
+  obtain ⟨w, x, q1, q2, q3, q4⟩ := word_split tps frames words (populate D words).phones a2.words a2.phones a2.states lens
+    p6 hfp (by simp [lens]) hposW p5 hok hT halive pa2 pa1 hlp hls hsc hbd i hi
+  exact ⟨a2, w, x, f1, q1, q2, q3, q4⟩
 
 /-- **C04, model runs: the word scores add up to the best path score.**  Under the hypotheses of
 `C04_model_run_hierarchy`, the sum of the aligned word scores is the maximum of the scores of the admissible complete
@@ -512,5 +565,24 @@ example : Step.FullPath #[exTp, exTp] #[0, 3] #[3, 7] (fun g => (List.replicate 
   have e : (Step.run #[exTp, exTp] #[0, 3] #[3, 7] (List.replicate 7 #[5, 6, 7, 8, 9, 10])).2.1.score = -183 := by decide
   rw [e] at o1 o2
   exact ⟨o2 (by decide), o1⟩
+
+/-- non-vacuity of the model-run theorems (`C04_model_run_hierarchy`, `C04_word_score_is_best_segment`, …): a
+dictionary with three states per phone and two one-phone words whose populated windows are those of the run above -/
+def exDict3 : Dict :=
+  { nEmit := 3, sil := 9, pron := fun w => if w = 0 then [5] else [6], tmat := id,
+    lrdiph := fun b _ _ => 100 + b, ldiph := fun b _ _ => 200 + b, internal := fun _ _ => 300,
+    rssid := fun c _ _ => 400 + c, sen := fun s j => 10 * s + j }
+
+def exWords3 : List Entry := [mkWord 0 0 3, mkWord 1 3 4]
+
+example : ∃ a' w, finish (Step.run #[exTp, exTp] ((populate exDict3 exWords3).phones.map sfOf).toArray
+      ((populate exDict3 exWords3).phones.map efOf).toArray (List.replicate 7 #[5, 6, 7, 8, 9, 10])).1 7
+      (Step.run #[exTp, exTp] ((populate exDict3 exWords3).phones.map sfOf).toArray
+        ((populate exDict3 exWords3).phones.map efOf).toArray (List.replicate 7 #[5, 6, 7, 8, 9, 10])).2.1
+      (populate exDict3 exWords3) = some a' ∧ a'.words[0]? = some w := by
+  obtain ⟨h1, _, _, _, _, _⟩ := exRun_hyps
+  obtain ⟨a', w, x, f, q1, _, _, _⟩ := C04_word_score_is_best_segment exDict3 exWords3 #[exTp, exTp]
+    (List.replicate 7 #[5, 6, 7, 8, 9, 10]) rfl (by decide) (by decide) h1 (by decide) (by decide) 0 (by decide)
+  exact ⟨a', w, by simpa using f, q1⟩
 
 end SSVerif.Align
